@@ -171,7 +171,7 @@ bool AttributedItem::appendAttributes(OutputFormat outputFormat, ostream* output
             result_t result = RESULT_EMPTY;
             size_t addr = parseInt(entry.second.c_str(), 16, 0, 255, &result);
             if (result == RESULT_OK) {
-              *output << ", \"" << key << "\": " << addr;
+              *output << ", \"" << key << "\": " << dec << addr;
               continue;
             }
           }
@@ -668,7 +668,7 @@ result_t SingleDataField::read(const SymbolString& data, size_t offset,
     }
     if (outputIndex >= 0 || m_name.empty() || !(outputFormat & OF_NAMES)) {
       if (fieldIndex < 0) {
-        *output << "\"" << static_cast<signed int>(outputIndex < 0 ? 0 : outputIndex) << "\":";
+        *output << "\"" << dec << static_cast<signed int>(outputIndex < 0 ? 0 : outputIndex) << "\":";
       }
       if (!shortFormat) {
         *output << " {\"name\": \"" << m_name << "\", \"value\": ";
